@@ -3,6 +3,7 @@ import itertools
 import time
 
 import common
+from e2e import try_
 from common import sx
 
 
@@ -260,6 +261,35 @@ def api_sweep(run):
             df = rt.dx.from_pandas(pdf, npartitions=3)
             for fr in ("7D", "30D", "1D"):
                 check("freq=%s" % fr, pdf, df.repartition(freq=fr))
+    # several repartitionings of ONE frame evaluated in one graph (their helper keys must not collide): every variant must
+    # return exactly the rows it returns alone
+    import dask
+    big = pd.DataFrame({"x": range(400), "y": [float(i) for i in range(400)]})
+    dbig = rt.dx.from_pandas(big, npartitions=2)
+    ts = pd.DataFrame({"x": range(24)}, index=pd.date_range("2021-01-01", periods=24, freq="D"))
+    dts = rt.dx.from_pandas(ts, npartitions=3)
+    families = {
+        "partition_size": (big, [dbig.repartition(partition_size=sz) for sz in ("1kiB", "2kiB", "3kiB", "100kiB")]),
+        "npartitions": (big, [dbig.repartition(npartitions=k) for k in (1, 3, 5, 7)]),
+        "divisions": (big, [dbig.repartition(divisions=d) for d in ([0, 100, 399], [0, 50, 200, 399], [0, 399])]),
+        "freq": (ts, [dts.repartition(freq=f) for f in ("2D", "3D", "5D")]),
+        "mixed": (big, [dbig.repartition(npartitions=4), dbig.repartition(partition_size="2kiB"), dbig.repartition(divisions=[0, 10, 399])]),
+    }
+    for fam, (pdf, variants) in families.items():
+        n += 1
+        run.count(("api-joint", fam))
+        try:
+            joint = dask.compute(*variants)
+        except Exception as ex:
+            run.violation("joint evaluation of %d %s repartitionings of one frame raised %r" % (len(variants), fam, ex), {"kind": "api-joint", "family": fam})
+            continue
+        for i, got in enumerate(joint):
+            if got.index.tolist() != pdf.index.tolist() or got.x.tolist() != pdf.x.tolist():
+                run.violation("variant %d of %d %s repartitionings of one frame, evaluated in one graph, returns %d rows (first x: %s), expected %d" % (
+                    i, len(variants), fam, len(got), got.x.tolist()[:6], len(pdf)), {"kind": "api-joint", "family": fam, "variant": i})
+        cc = try_(lambda: rt.dx.concat(variants).compute())
+        if cc[0] == "ok" and sorted(cc[1].x.tolist()) != sorted(pdf.x.tolist() * len(variants)):
+            run.violation("concat of %d %s repartitionings of one frame has %d rows, expected %d" % (len(variants), fam, len(cc[1]), len(pdf) * len(variants)), {"kind": "api-joint", "family": fam})
     run.section("api", cases=n)
 
 
